@@ -91,7 +91,7 @@ MUTATIONS = [
      "Dipole: guard of the thin-corrector branch inverted"),
     ("S44", "detect", ACC + "dipole.py", "R_enter = self._transfer_map_enter()", "R_enter = self._transfer_map_exit()", "Dipole: entrance edge replaced by the exit edge"),
     ("S45", "detect", ACC + "solenoid.py", "        R = R.real\n", "        R = R.transpose(-1, -2)\n", "Solenoid: unknown tensor method"),
-    ("S46", "detect", ACC + "cavity.py", "phi = torch.deg2rad(self.phase)", "phi = self.phase", "Cavity: deg2rad dropped"),
+    ("S46", "detect", ACC + "cavity.py", ("all", "phi = torch.deg2rad(self.phase)"), "phi = self.phase", "Cavity: deg2rad dropped (both occurrences in the file)"),
     # ---- not semantic in the scalar reading (documented blind spot; batched behaviour is C04's subject)
     ("N01", "ok", TM, "if torch.any(tilt != 0):", "if torch.all(tilt != 0):", "torch.any -> torch.all on a scalar test (same scalar reading)"),
     # ---- cosmetic
@@ -118,7 +118,11 @@ def apply_mutation(m):
     _, _, rel, old, new, _ = m
     p = COPY / rel
     src = p.read_text()
-    if isinstance(old, tuple):
+    if isinstance(old, tuple) and old[0] == "all":
+        if src.count(old[1]) < 1:
+            raise RuntimeError(f"text {old[1]!r} not found in {rel}")
+        out = src.replace(old[1], new)
+    elif isinstance(old, tuple):
         out, n = re.subn(old[1], new, src)
         if n == 0:
             raise RuntimeError(f"pattern {old[1]!r} not found in {rel}")
@@ -186,6 +190,9 @@ def main():
                 restore(backup)
             exp = m[1]
             good = (r["status"] in ("translator_failed", "equivalence_broken")) if exp == "detect" else (r["status"] == "ok") if exp == "ok" else True
+            if not tch:
+                good = False        # a mutation that does not reach a translated function tests nothing
+                r = dict(r, status="mutation-missed-its-target", reason="the edit changed no translated function")
             bad += 0 if good else 1
             rows.append((m[0], exp, "PASS" if good else "FAIL", describe(r), m[5], r["wall_s"], tch))
             print(f"{m[0]:5} {exp:7} {'PASS' if good else 'FAIL'}  {describe(r):100}  | {m[5]}  [{r['wall_s']} s]", flush=True)
